@@ -50,8 +50,8 @@ static void build_ops(void)
 	int i, j;
 	char b[16];
 	/* the core alphabet first (used for the deeper sequences) */
-	static const char *core[] = {"j", "k", "l", "h", "w", "b", "e", "$", "0", "fa", ";", "3|", "G", "}", "2j", "tb"};
-	for (i = 0; i < 16; i++) {
+	static const char *core[] = {"j", "k", "l", "h", "w", "b", "e", "$", "0", "fa", ";", "3|", "G", "}", "2j", "tb", ",", "Fb"};
+	for (i = 0; i < 18; i++) {
 		const char *k = core[i];
 		int cnt = 0;
 		if (*k >= '1' && *k <= '9')
